@@ -1,6 +1,7 @@
 //go:build verif
 
 //verif:dir p2p/net/swarm
+//verif:also C17 -
 //verif:hook p2p/net/swarm Conn.start
 //verif:shard VerifC06aNotifyPeer 9
 //verif:obligation C06.a notifyPeer on every history of <= 4 add/remove events for a peer with an arbitrary connectedness answer (NotConnected / Connected / Limited) per event: two consecutive published states are different, except a NotConnected published for an add event (a connection that vanished before it was announced); after every event the last published state equals the connectedness just observed (nothing published counts as NotConnected) and the remembered state equals it
@@ -16,8 +17,8 @@ import (
 
 	"github.com/libp2p/go-libp2p/core/connmgr"
 	"github.com/libp2p/go-libp2p/core/control"
-	"github.com/libp2p/go-libp2p/core/event"
 	ic "github.com/libp2p/go-libp2p/core/crypto"
+	"github.com/libp2p/go-libp2p/core/event"
 	"github.com/libp2p/go-libp2p/core/network"
 	"github.com/libp2p/go-libp2p/core/peer"
 	"github.com/libp2p/go-libp2p/core/peerstore"
@@ -149,20 +150,22 @@ type vC06tc struct {
 	closes int
 }
 
-func (c *vC06tc) IsClosed() bool                                 { return c.closes > 0 }
-func (c *vC06tc) Transport() transport.Transport                 { return vC06tpt{} }
-func (c *vC06tc) RemotePeer() peer.ID                            { return c.p }
-func (c *vC06tc) RemoteMultiaddr() ma.Multiaddr                  { return nil }
-func (c *vC06tc) RemotePublicKey() ic.PubKey                     { return nil }
-func (c *vC06tc) Close() error                                   { c.closes++; return nil }
-func (c *vC06tc) CloseWithError(network.ConnErrorCode) error     { c.closes++; return nil }
+func (c *vC06tc) IsClosed() bool                             { return c.closes > 0 }
+func (c *vC06tc) Transport() transport.Transport             { return vC06tpt{} }
+func (c *vC06tc) RemotePeer() peer.ID                        { return c.p }
+func (c *vC06tc) RemoteMultiaddr() ma.Multiaddr              { return nil }
+func (c *vC06tc) RemotePublicKey() ic.PubKey                 { return nil }
+func (c *vC06tc) Close() error                               { c.closes++; return nil }
+func (c *vC06tc) CloseWithError(network.ConnErrorCode) error { c.closes++; return nil }
 
 type vC06gater struct {
 	connmgr.ConnectionGater
 	allow bool
 }
 
-func (g *vC06gater) InterceptUpgraded(network.Conn) (bool, control.DisconnectReason) { return g.allow, 0 }
+func (g *vC06gater) InterceptUpgraded(network.Conn) (bool, control.DisconnectReason) {
+	return g.allow, 0
+}
 
 type vC06ps struct{ peerstore.Peerstore }
 
